@@ -112,9 +112,16 @@ def dump(module, reserved_globals, prefix_globals):
         else:
             k = 'hoisted'
         vlen = len(repr(b.value)) if k == 'hoisted' else 0
-        items.append('(B %s %s %d %d %s %d %d %s)' % (
+        # list/set/dict comprehensions are compiled inline (PEP 709): the enclosing namespaces out to the first real one
+        encl = []
+        n = namespace
+        while isinstance(n, (ast.ListComp, ast.SetComp, ast.DictComp)):
+            n = n.namespace
+            encl.append(nid(n))
+        items.append('(B %s %s %d %d %s %d %d %s %s)' % (
             k, 'N' if b.name is None else enc_str(b.name), vlen, 1 if b.allow_rename else 0,
-            'N' if b.reserved is None else enc_str(b.reserved), nid(namespace), 1 if namespace is module else 0, lst(refs)))
+            'N' if b.reserved is None else enc_str(b.reserved), nid(namespace), 1 if namespace is module else 0,
+            lst([str(c) for c in encl]), lst(refs)))
     line = 'rename.assign %d %s %s' % (1 if prefix_globals else 0, lst([enc_str(x) for x in reserved_globals if isinstance(x, str)]), lst(items))
     return line, pairs
 
